@@ -670,6 +670,10 @@ func (c *Collection) FindOneAndDelete(ctx context.Context, filter interface{}, o
 	// delete documents and apply the projection within the transaction so
 	// that a failing projection does not leave the document deleted
 	res, err := useTransaction(ctx, c.engine, true, func(txn *Transaction) (interface{}, error) {
+		// remember state (the transaction may be a session transaction that
+		// is not aborted if this call fails)
+		catalog, dirty := txn.snapshot()
+
 		// delete document
 		res, err := txn.Delete(c.handle, query, sort, 0, 1)
 		if err != nil {
@@ -683,6 +687,7 @@ func (c *Collection) FindOneAndDelete(ctx context.Context, filter interface{}, o
 		if projection != nil {
 			list, err = mongokit.ProjectList(list, projection)
 			if err != nil {
+				txn.rollback(catalog, dirty)
 				return nil, err
 			}
 		}
@@ -805,13 +810,24 @@ func (c *Collection) FindOneAndReplace(ctx context.Context, filter, replacement 
 	// replace document and apply the projection within the transaction so
 	// that a failing projection does not leave the document replaced
 	res, err := useTransaction(ctx, c.engine, true, func(txn *Transaction) (interface{}, error) {
+		// remember state (the transaction may be a session transaction that
+		// is not aborted if this call fails)
+		catalog, dirty := txn.snapshot()
+
 		// replace document
 		result, err := txn.Replace(c.handle, query, sort, repl, upsert)
 		if err != nil {
 			return nil, err
 		}
 
-		return projectModified(result, returnAfter, projection)
+		// project document
+		doc, err := projectModified(result, returnAfter, projection)
+		if err != nil {
+			txn.rollback(catalog, dirty)
+			return nil, err
+		}
+
+		return doc, nil
 	})
 	if err != nil {
 		return &SingleResult{err: err}
@@ -900,13 +916,24 @@ func (c *Collection) FindOneAndUpdate(ctx context.Context, filter, update interf
 
 	// update documents
 	res, err := useTransaction(ctx, c.engine, true, func(txn *Transaction) (interface{}, error) {
+		// remember state (the transaction may be a session transaction that
+		// is not aborted if this call fails)
+		catalog, dirty := txn.snapshot()
+
 		// update document
 		result, err := txn.Update(c.handle, query, sort, upd, 0, 1, upsert, arrayFilters)
 		if err != nil {
 			return nil, err
 		}
 
-		return projectModified(result, returnAfter, projection)
+		// project document
+		doc, err := projectModified(result, returnAfter, projection)
+		if err != nil {
+			txn.rollback(catalog, dirty)
+			return nil, err
+		}
+
+		return doc, nil
 	})
 	if err != nil {
 		return &SingleResult{err: err}
